@@ -1,6 +1,7 @@
 import IstioModel.Common.Wire
 import IstioModel.C14.Snapshot
 import IstioModel.C14.Kernels
+import IstioModel.C14.ListenerConflict
 
 /-!
 Line-protocol driver of C14.
@@ -107,6 +108,28 @@ def stepKernel (d : DState) (toks : List String) : Option (DState × String) :=
     let u := (decList unk).filter (fun n => r.contains n)
     some (d, s!"names={encSet (answered r)} empty={encSet u}")
   | ["rds", _, req] => some (d, s!"names={encSet (answered (decList req))}")
+  | ["lc", inc, wild, cur] =>
+    match Proto.ofTok inc with
+    | Option.none => some (d, "bad-op")
+    | some p =>
+      let c : Option (Option Entry) :=
+        if cur == "-" then some Option.none
+        else match cur.splitOn ":" with
+          | [pt, l] => (Proto.ofTok pt).map (fun q => some ⟨q, tokBool l⟩)
+          | _ => Option.none
+      match c with
+      | Option.none => some (d, "bad-op")
+      | some ce =>
+        let k : Key := ("b", 7777)
+        let m : LMap := match ce with
+          | Option.none => []
+          | some e => [(k, e)]
+        let m' := applyService m k p (tokBool wild)
+        let keys := s!" keys={m'.length}"
+        some (d, match decision p (tokBool wild) ce with
+          | .skip => "skip" ++ keys
+          | .new q => "new " ++ q.tok ++ keys
+          | .merge q => "merge " ++ q.tok ++ keys)
   | _ => none
 
 def stepMon (toks : List String) : Option String :=
